@@ -244,7 +244,7 @@ fn run_match(case: &Value) -> Value {
 }
 
 /// The SDK's own default resolver stack (Context::resolver(), real HTTP client) against a loopback server that
-/// answers the first request with a redirect.  {"kind":"ctx","allowed":[str]|null,"allow_redirects":bool,"location":str}
+/// answers the first request with a redirect.  {"kind":"ctx","allowed":[str]|null,"allow_redirects":bool,"location":str,"async":bool}
 /// ("{port}" in allowed/location is replaced by the server's port).  Reports the outcome and the request lines the
 /// server saw.
 pub fn run_ctx(case: &Value) -> Value {
@@ -308,7 +308,15 @@ pub fn run_ctx(case: &Value) -> Value {
         .header("authorization", "secret")
         .body(Vec::new())
         .expect("request");
-    let mut out = outcome(ctx.resolver().http_resolve(req));
+    let res = if case["async"].as_bool().unwrap_or(false) {
+        // the async default stack (build_default_async_resolver, reqwest) on a current-thread tokio runtime
+        let rt = tokio::runtime::Builder::new_current_thread().enable_all().build().expect("tokio runtime");
+        let resolver = ctx.resolver_async();
+        rt.block_on(async { resolver.http_resolve_async(req).await })
+    } else {
+        ctx.resolver().http_resolve(req)
+    };
+    let mut out = outcome(res);
     stop.store(true, Ordering::SeqCst);
     server.join().ok();
     out["served"] = json!(served.lock().unwrap().clone());
